@@ -35,6 +35,9 @@ from .astutil import clone
 from .index import FuncInfo, set_parents, walk_local
 
 MAX_STMTS = 80
+# decorators that do not change what a call of the function does
+TRANSPARENT_DECORATORS = ("staticmethod", "classmethod", "numba.njit", "njit", "numba.jit", "jit", "override", "typing.override", "typing_extensions.override")
+CONTEXTMANAGER = ("contextmanager", "contextlib.contextmanager")
 
 
 class _Bail(Exception):
@@ -77,6 +80,13 @@ def _assigned_names(node: ast.AST) -> set[str]:
         elif isinstance(n, ast.FunctionDef):
             out.add(n.name)
     return out
+
+
+def _ancestors(node: ast.AST, stop: ast.AST):
+    p = getattr(node, "_parent", None)
+    while p is not None and p is not stop:
+        yield p
+        p = getattr(p, "_parent", None)
 
 
 def _within(root: ast.AST, node: ast.AST) -> bool:
@@ -301,7 +311,7 @@ class Inliner:
         self.inlined_calls: set[int] = set()  # id() of the ORIGINAL call nodes that were replaced
 
     # -- eligibility
-    def _callee(self, fctx: FuncInfo, call: ast.Call, stack: tuple, generator: bool = False, g: Optional[FuncInfo] = None) -> Optional[FuncInfo]:
+    def _callee(self, fctx: FuncInfo, call: ast.Call, stack: tuple, generator: bool = False, g: Optional[FuncInfo] = None, ctxmgr: bool = False) -> Optional[FuncInfo]:
         if isinstance(call.func, ast.Attribute) and isinstance(call.func.value, ast.Call) and getattr(call.func.value.func, "id", "") == "super":
             return None
         if g is None:
@@ -319,7 +329,9 @@ class Inliner:
             return None
         if isinstance(g.node, ast.AsyncFunctionDef) or g.kind in ("getter", "setter") or g.outer is not None:
             return None
-        if any(d not in ("staticmethod", "classmethod") for d in g.decorators):
+        if any(d not in TRANSPARENT_DECORATORS and not (ctxmgr and d in CONTEXTMANAGER) for d in g.decorators):
+            return None
+        if ctxmgr != any(d in CONTEXTMANAGER for d in g.decorators):
             return None
         a = g.node.args
         if a.kwarg:
@@ -336,8 +348,10 @@ class Inliner:
                 return None
             if generator and isinstance(n, ast.Return) and n.value is not None:
                 return None
-            if generator and isinstance(n, (ast.Try, ast.With)) and any(isinstance(x, (ast.Yield, ast.YieldFrom)) for x in ast.walk(n)):
+            if generator and not ctxmgr and isinstance(n, (ast.Try, ast.With)) and any(isinstance(x, (ast.Yield, ast.YieldFrom)) for x in ast.walk(n)):
                 return None  # suspension inside try / with: cleanup timing would change
+            if ctxmgr and isinstance(n, (ast.YieldFrom, ast.Return)):
+                return None
             if isinstance(n, ast.stmt):
                 n_st += 1
         if generator != has_yield:
@@ -538,6 +552,12 @@ class Inliner:
         if isinstance(st, ast.Match):
             for c, oc in zip(st.cases, ost.cases):
                 c.body = self._stmts(fctx, c.body, stack, oc.body, caller_names)
+        # with self._cm(..) [as v]: BODY  (a repository @contextmanager with one `yield`): the generator's
+        # body with the yield statement replaced by BODY
+        if isinstance(st, ast.With) and len(st.items) == 1 and isinstance(st.items[0].context_expr, ast.Call):
+            fusedw = self._fuse_contextmanager(fctx, st, ost, stack, caller_names)
+            if fusedw is not None:
+                return fusedw
         # for x in self._gen(..): BODY   /   for x in obj: BODY (obj.__iter__ a repository generator)
         if isinstance(st, ast.For) and not st.orelse:
             fused = self._fuse_generator(fctx, st, ost, stack, caller_names)
@@ -631,6 +651,53 @@ class Inliner:
         # expression substitution anywhere inside this statement's own expressions
         self._subst_exprs(fctx, st, ost, stack)
         return [st]
+
+    def _fuse_contextmanager(self, fctx, st: ast.With, ost: ast.With, stack, caller_names) -> Optional[list[ast.stmt]]:
+        call, ocall = st.items[0].context_expr, ost.items[0].context_expr
+        g = self._callee(fctx, ocall, stack, generator=True, ctxmgr=True)
+        if g is None:
+            return None
+        yields = [n for n in walk_local(g.node) if isinstance(n, ast.Yield)]
+        if len(yields) != 1 or any(isinstance(p_, (ast.For, ast.While)) for p_ in _ancestors(yields[0], g.node)):
+            return None
+        var = st.items[0].optional_vars
+        try:
+            self._fctx = fctx
+            pre, body = self._prepare(g, call, caller_names, stack)
+        except _Bail as ex:
+            self.skipped.append((g.qual, str(ex)))
+            return None
+        holder = ast.Module(body=body, type_ignores=[])
+        set_parents(holder)
+        ys = [n for n in ast.walk(holder) if isinstance(n, ast.Yield)]
+        if len(ys) != 1:
+            return None
+        ystmt = getattr(ys[0], "_parent", None)
+        if not isinstance(ystmt, ast.Expr):
+            return None
+        new_body: list[ast.stmt] = []
+        if var is not None:
+            val = ys[0].value if ys[0].value is not None else ast.Constant(value=None)
+            new_body.append(ast.copy_location(ast.Assign(targets=[var], value=val), st))
+        new_body.extend(st.body)
+        blk_owner = getattr(ystmt, "_parent", None)
+        placed = False
+        for fld in ("body", "orelse", "finalbody"):
+            lst = getattr(blk_owner, fld, None)
+            if isinstance(lst, list) and ystmt in lst:
+                k = lst.index(ystmt)
+                lst[k:k + 1] = new_body
+                placed = True
+                break
+        if not placed:
+            return None
+        new = pre + holder.body
+        for s_ in new:
+            ast.fix_missing_locations(s_)
+        self.inlined.append(g.qual)
+        self.inlined_calls.add(id(ocall))
+        caller_names |= _all_names(ast.Module(body=new, type_ignores=[]))
+        return new
 
     def _fuse_generator(self, fctx, st: ast.For, ost: ast.For, stack, caller_names) -> Optional[list[ast.stmt]]:
         """Generator-loop fusion: the generator's body with every ``yield v`` replaced by
